@@ -173,8 +173,21 @@ func C14(c Ctx) *report.Report {
 	o.Histories = c.N(14, 200)
 	o.Steps = 24
 	o.LockChanges = true
-	for _, h := range RunClpHistories(c, rep, rng, o, &next) {
+	for hi, h := range RunClpHistories(c, rep, rng, o, &next) {
 		e := h.Env
+		if hi%3 == 1 {
+			// a ratio-shifting policy is under way when the state is exported: the running rate has moved away from the
+			// inter-policy rate, the epoch and block counters are in the middle of the period
+			settle(e.Chain)
+			e.BeginBlock()
+			m := &clptypes.MsgUpdatePmtpParams{Signer: e.Admin.Addr.String(), PmtpPeriodGovernanceRate: "0.1", PmtpPeriodEpochLength: 2, PmtpPeriodStartBlock: e.Height + 1, PmtpPeriodEndBlock: e.Height + 8}
+			if e.Tx(e.Admin, m).Code == 0 {
+				for b := 0; b < 3+rng.Intn(3); b++ {
+					e.NextBlock()
+				}
+				rep.Count("roundtrip.clp.policy-under-way")
+			}
+		}
 		settle(e.Chain)
 		s1 := e.Snapshot()
 		p1 := polSnapshot(e, 0)
